@@ -24,6 +24,7 @@ var observerPrefixes = []string{
 	"runtime.", "os.Getenv", "unicode.", "unicode/utf8.", "sort.SearchInts", "hash/fnv.",
 	"(encoding/binary.littleEndian).Uint", "(encoding/binary.bigEndian).Uint", "encoding/binary.Size",
 	"(*github.com/pilosa/pilosa/roaring.Container).String",
+	"(hash.Hash32).", "(hash.Hash64).", "(hash.Hash).", "(io.Writer).Write", "(fmt.Stringer).String",
 }
 
 func isObserver(name string) bool {
@@ -60,6 +61,50 @@ func (e *Enc) havocResults(fr *Frame, val ssa.Value, sig *types.Signature, h *He
 		ops = append(ops, opVal(v))
 	}
 	return ops
+}
+
+// dynCallOrdinal: 1-based ordinal (by source position) of a dynamic call
+// instruction among the dynamic calls of fn; 0 if not found.
+func dynCallOrdinal(fn *ssa.Function, instr ssa.Instruction) int {
+	if instr == nil {
+		return 0
+	}
+	type site struct {
+		in  ssa.Instruction
+		pos token.Pos
+	}
+	var sites []site
+	for _, b := range fn.Blocks {
+		for _, in := range b.Instrs {
+			ci, ok := in.(ssa.CallInstruction)
+			if !ok {
+				continue
+			}
+			cc := ci.Common()
+			if cc.IsInvoke() || cc.StaticCallee() != nil {
+				continue
+			}
+			if _, isB := cc.Value.(*ssa.Builtin); isB {
+				continue
+			}
+			if _, isMC := cc.Value.(*ssa.MakeClosure); isMC {
+				continue
+			}
+			sites = append(sites, site{in, in.Pos()})
+		}
+	}
+	n := 0
+	for _, s := range sites {
+		if s.pos < instr.Pos() || (s.pos == instr.Pos() && s.in != instr) {
+			n++
+		}
+	}
+	for _, s := range sites {
+		if s.in == instr {
+			return n + 1
+		}
+	}
+	return 0
 }
 
 const maxInlineDepth = 6
@@ -154,6 +199,46 @@ func (e *Enc) call(fr *Frame, val ssa.Value, cc *ssa.CallCommon, instr ssa.Instr
 		args = append(args, e.operand(fr, a))
 	}
 	if callee == nil {
+		// function-typed struct field with a (trusted) field contract: T.field
+		if u, ok := cc.Value.(*ssa.UnOp); ok {
+			if fa, ok := u.X.(*ssa.FieldAddr); ok {
+				st := fa.X.Type().Underlying().(*types.Pointer).Elem()
+				fname := st.Underlying().(*types.Struct).Field(fa.Field).Name()
+				if n, ok := st.(*types.Named); ok && n.Obj().Pkg() != nil {
+					key := n.Obj().Pkg().Path() + "." + n.Obj().Name() + "." + fname
+					if c := e.w.cs.Contracts[key]; c != nil {
+						var names []string
+						var ptypes []types.Type
+						for i := 0; i < sig.Params().Len(); i++ {
+							pn := sig.Params().At(i).Name()
+							if pn == "" {
+								pn = fmt.Sprintf("arg%d", i)
+							}
+							names = append(names, pn)
+							ptypes = append(ptypes, sig.Params().At(i).Type())
+						}
+						return e.applyContract(fr, val, c, key, names, ptypes, sig, args, g, h, pos, nil)
+					}
+				}
+			}
+		}
+		// contract for the n-th dynamic call site of this function: <func>$dyn<n>
+		if ord := dynCallOrdinal(fr.fn, instr); ord > 0 {
+			key := fmt.Sprintf("%s$dyn%d", e.w.funcKey(fr.fn), ord)
+			if c := e.w.cs.Contracts[key]; c != nil {
+				var names []string
+				var ptypes []types.Type
+				for i := 0; i < sig.Params().Len(); i++ {
+					pn := sig.Params().At(i).Name()
+					if pn == "" {
+						pn = fmt.Sprintf("arg%d", i)
+					}
+					names = append(names, pn)
+					ptypes = append(ptypes, sig.Params().At(i).Type())
+				}
+				return e.applyContract(fr, val, c, key, names, ptypes, sig, args, g, h, pos, nil)
+			}
+		}
 		e.opaque["dynamic call in "+fr.fn.Name()] = true
 		h2 := e.havocAll(fr, h, "dynamic call")
 		e.setResult(fr, val, e.havocResults(fr, val, sig, h2, g))
